@@ -113,6 +113,23 @@ def run(ctx):
                         ctx.ob('C40-D1', cand, 'hand-written sync/async twin', 'same callee methods in both flavours', same,
                                detail='' if same else 'only sync: %s ; only async: %s' % (dict(a_ - b_), dict(b_ - a_)), site=loc(prog.fn(cand).d['span']))
                     break
+    # the twin impls override the same set of trait methods (a method left to the trait default in one flavour behaves differently)
+    imps = {}
+    for im in prog.impls:
+        imps[(im['trait'], re.sub(r"<'_[^>]*>", '', im['self_ty']))] = set(m[0].split('::')[-1] for m in im['methods'])
+    nimp = 0
+    for (tr, ty), ms in sorted(imps.items()):
+        if 'Async' not in tr or 'Async' not in ty:
+            continue
+        for cand in ((tr.replace('Async', ''), ty.replace('Async', '')), (tr.replace('Async', 'Sync'), ty.replace('Async', 'Sync'))):
+            if cand in imps:
+                nimp += 1
+                sm = imps[cand]
+                norm = lambda s_: set(re.sub(r'_async$', '', x) for x in s_)
+                ctx.ob('C40-D1', '%s for %s' % (cand[0].split('::')[-1], cand[1].split('::')[-1]), 'methods overridden by the sync and the async impl', 'the same set', norm(sm) == norm(ms),
+                       detail='only sync: %s ; only async: %s' % (sorted(norm(sm) - norm(ms)), sorted(norm(ms) - norm(sm))))
+                break
+    ctx.floor('sync/async impl pairs of the same wrapper type', nimp, 2, rule='C40-D1')
     ctx.floor('hand-written sync/async trait twins', ntw, 10, rule='C40-D1')
     ctx.floor('sync/async twin pairs', len(pairs), 75, rule='C40-D1')
     for sname, aname in sorted(pairs):
